@@ -202,3 +202,10 @@ Theorem setmetatable_sets : forall n fr r m rest s,
   Ret [VTab r] (with_tabs s (set_nth (tabs s) r (mkTab (t_kv (tab_of s r)) (Some m)))).
 Proof. exact setmetatable_sets_lemma. Qed.
 Print Assumptions setmetatable_sets.
+
+(* setmetatable(t) with the second argument missing is an error and changes nothing (a missing
+   argument is not nil: luaL_argcheck "nil or table expected") *)
+Theorem setmetatable_missing_argument : forall n fr r s,
+  builtin_call (S n) fr BSetMt [VTab r] s = Err (VFault 6 (frames_line fr)) s.
+Proof. exact setmetatable_missing_lemma. Qed.
+Print Assumptions setmetatable_missing_argument.
